@@ -931,6 +931,20 @@ class Exec:
         pure = (nt in PURE_EXTERNAL) or (target in self.pure) or (nt in self.pure)
         uid = None if pure else fresh()
         res = ("call", target, tuple(args), uid)
+        if pure and not args and frame and c is not None:
+            # a function of its type arguments alone (`size_of::<P>()`) inside an inlined generic helper: two instantiations of the
+            # helper (`with_payload::<F>` and `with_payload::<Box<F>>`) must not produce the same term, or a test made for the one
+            # would be taken as decided for the other
+            tp_ = {k[1]: v for k, v in st.env.items() if isinstance(k, tuple) and k[0] == "tparam"}
+            try:
+                tas = c.type_args()
+            except Exception:
+                tas = []
+            if tp_ and tas:
+                inst = tuple(re.sub(r"\b([A-Z][A-Za-z0-9_]*)\b(?!::|<)", lambda m: str(tp_.get(m.group(1), m.group(1))), a_["ty"])
+                             for a_ in tas)
+                if any(x != a_["ty"] for x, a_ in zip(inst, tas)):
+                    res = ("call", target, (("ty", inst),), uid)
         inv = INVERSE_PAIRS.get(target)
         if inv is not None and pure and len(args) == 1 and isinstance(args[0], tuple) and args[0][0] == "call" and \
                 args[0][1] == inv and args[0][3] is None and len(args[0][2]) == 1:
@@ -1504,6 +1518,24 @@ def _model_try_with(ex, body, st, bb, t, c, args, frame, cont, target, nt, span)
     """LocalKey::try_with(key, f): either f runs once (Ok) or the key is destroyed (Err)."""
     cb = ex._closure_body(args[1]) if len(args) > 1 else None
     if cb is None:
+        if len(args) < 2:
+            return
+        # an opaque callable (`HANDLE.try_with(&mut f)` with f a generic parameter): it runs once on the value (Ok), or the key
+        # is destroyed (Err) - the call itself stays uninterpreted
+        tv = ("ref", ("tlsval", args[0]))
+        tgt = "std::ops::FnOnce::call_once"
+        res0 = ("call", tgt, (args[1], tv), fresh())
+        st_ok = st.fork()
+        st_ok.events.append(Event("call", bb, frame, body, target=tgt, ntarget=tgt, args=[args[1], tv], result=res0,
+                                  callee=_FakeCallee(tgt), span=span, fterm=None, pure=False))
+        st_ok.memver += 1
+        for r in cont(st_ok, ("agg", "std::result::Result", "Ok", (res0,), 0, ("0",))):
+            yield r
+        st_e = st.fork()
+        st_e.events.append(Event("cond", bb, frame, body, term=("tls_destroyed", args[0]), value=1, exp=False, span=span,
+                                 is_bool=True))
+        for r in cont(st_e, ("agg", "std::result::Result", "Err", (("c", "AccessError", "AccessError"),), 1, ("0",))):
+            yield r
         return
     st.events.append(Event("hof", bb, frame, body, target=target, ntarget=nt, args=args, closure=cb.name, span=span,
                            model="runs-once-or-err"))
@@ -1740,6 +1772,53 @@ def _mk_option_model(kind):
                     continue
                 res = _some(ret) if kind == "map" else ret
                 for r in cont(s3, res):
+                    yield r
+    return model
+
+
+def _mk_result_model(kind):
+    def model(ex, body, st, bb, t, c, args, frame, cont, target, nt, span):
+        """Result::map_or_else(r, default(e), f(x)) / map_or(r, d, f) / is_ok_and(r, f) / is_err_and(r, f)"""
+        r0 = args[0]
+        fidx = {"map_or_else": 2, "map_or": 2, "is_ok_and": 1, "is_err_and": 1}[kind]
+        clos = args[fidx] if len(args) > fidx else None
+        cb = ex._closure_body(clos)
+        if cb is None:
+            return
+        dcb = ex._closure_body(args[1]) if kind == "map_or_else" else None
+        if kind == "map_or_else" and dcb is None:
+            return
+        on_ok = kind != "is_err_and"
+        for is_ok in (True, False):
+            s2 = st.fork()
+            if isinstance(r0, tuple) and r0[0] == "agg" and r0[2] in ("Ok", "Err"):
+                if (r0[2] == "Ok") != is_ok:
+                    continue
+                payload = r0[3][0]
+            else:
+                if not _res_cond(s2, r0, is_ok, bb, frame, body, span):
+                    continue
+                payload = _okp(r0) if is_ok else _errp(r0)
+            if is_ok == on_ok:
+                for (s3, ret, ex_) in _run_closure(ex, body, s2, bb, frame, cb, clos, [payload], target, nt, span,
+                                                   "runs-iff-Ok" if on_ok else "runs-iff-Err"):
+                    if ex_ is not None:
+                        yield (s3, ex_, None)
+                        continue
+                    for r in cont(s3, ret):
+                        yield r
+            elif kind == "map_or_else":
+                for (s3, ret, ex_) in _run_closure(ex, body, s2, bb, frame, dcb, args[1], [payload], target, nt, span, "runs-iff-Err"):
+                    if ex_ is not None:
+                        yield (s3, ex_, None)
+                        continue
+                    for r in cont(s3, ret):
+                        yield r
+            elif kind == "map_or":
+                for r in cont(s2, args[1]):
+                    yield r
+            else:
+                for r in cont(s2, ("c", 0, "bool")):
                     yield r
     return model
 
@@ -2161,6 +2240,10 @@ HIGHER_ORDER = {
     "std::thread::LocalKey::with": _model_with,
     "std::thread::LocalKey::try_with": _model_try_with,
     "std::result::Result::unwrap_or_else": _model_unwrap_or_else,
+    "std::result::Result::map_or_else": _mk_result_model("map_or_else"),
+    "std::result::Result::map_or": _mk_result_model("map_or"),
+    "std::result::Result::is_ok_and": _mk_result_model("is_ok_and"),
+    "std::result::Result::is_err_and": _mk_result_model("is_err_and"),
     "std::result::Result::map": _mk_map("map"),
     "std::result::Result::map_err": _mk_map("map_err"),
     "std::array::from_fn": _model_repeat_n,
